@@ -336,4 +336,284 @@ theorem int_run {τ} (k : Kind) (c : Ctx) (hu : usesHelpers k c = true) (hc : c 
       exact num_tail_run k c hu hc .int (.inr rfl) data h hsm (b :: rest) fuel p st r hat hp herr hf
         (by intro _ b' rest' hh; injection hh with h1 _; subst h1; exact hd')
 
+/-! ## numbers in the machines without helper scanners (fraction and exponent states of the DFA) -/
+
+theorem dfa_eof (k : Kind) (c : Ctx) (hc : c ≠ .hTop) (t : Tok) (ht : t = .zero ∨ t = .int ∨ t = .frac ∨ t = .exp) :
+    (machine k).eof ⟨c, .tok t⟩ = (machine k).eof ⟨c, .after⟩ := by
+  rcases ht with rfl | rfl | rfl | rfl <;> cases c <;> first | rfl | exact absurd rfl hc
+
+/-- exponent digits, then `after` -/
+theorem exp_digits_run {τ} (k : Kind) (c : Ctx) (hc : c ≠ .hTop) (data : Bytes) (h : Handler τ) (hsm : Small data) :
+    ∀ (l : List UInt8) (fuel p : Nat) (st : List AS) (r : Regs τ), At data p l → r.p = p → l.length + 1 ≤ fuel →
+      Reach (machine k) data h fuel ⟨c, .tok .exp⟩ st r (skipDigits l) ⟨c, .after⟩ st := by
+  intro l
+  induction l with
+  | nil =>
+    intro fuel p st r hat hp hf
+    refine ⟨fuel, p, hat, hf, ?_⟩
+    rw [setp_self r _ hp]
+    exact contL_state_congr (machine k) data h fuel _ _ st r p [] hat hp (dfa_eof k c hc .exp (by simp)) (by intro b rest hh; cases hh)
+  | cons b rest ih =>
+    intro fuel p st r hat hp hf
+    by_cases hd : isDigit b = true
+    · rw [skipDigits_cons_digit b rest hd]
+      obtain ⟨hb, hlt, hat'⟩ := hat.cons_inv
+      obtain ⟨fuel, rfl⟩ : ∃ f, fuel = f + 1 := ⟨fuel - 1, by omega⟩
+      have hstep : (machine k).step ⟨c, .tok .exp⟩ b = ([], some ⟨c, .tok .exp⟩) := by simp [machine, step, hd]
+      unfold Reach
+      rw [contL_cons (machine k) data h _ _ _ r p _ rest hp hat,
+        loopL_goto (machine k) data h fuel _ _ st r p b rest hsm hp hat hstep]
+      exact ih fuel (p + 1) st { r with p := ((p + 1 : Nat) : Int) } hat' rfl (by simp only [List.length_cons] at hf; omega)
+    · have hd' : isDigit b = false := by simpa using hd
+      rw [skipDigits_cons_nondigit b rest hd']
+      refine ⟨fuel, p, hat, hf, ?_⟩
+      rw [setp_self r _ hp]
+      apply contL_state_congr (machine k) data h fuel _ _ st r p (b :: rest) hat hp (dfa_eof k c hc .exp (by simp))
+      intro b' rest' hh
+      injection hh with h1 _
+      subst h1
+      simp [machine, step, hd']
+
+theorem expStart_not_final (c : Ctx) : isFinal ⟨c, .tok .expStart⟩ = false := by cases c <;> rfl
+theorem expSign_not_final (c : Ctx) : isFinal ⟨c, .tok .expSign⟩ = false := by cases c <;> rfl
+theorem fracStart_not_final (c : Ctx) : isFinal ⟨c, .tok .fracStart⟩ = false := by cases c <;> rfl
+
+/-- a digit, then more digits -/
+def digitsTail : List UInt8 → Option (List UInt8)
+  | d :: t2 => if isDigit d then some (skipDigits t2) else none
+  | [] => none
+
+theorem expTail_nil : expTail [] = none := rfl
+
+theorem expTail_sign (s0 : UInt8) (t' : List UInt8) (hs : (s0 == 43 || s0 == 45) = true) :
+    expTail (s0 :: t') = digitsTail t' := by
+  simp only [expTail, hs, if_true]
+  rfl
+
+theorem expTail_nosign (s0 : UInt8) (t' : List UInt8) (hs : (s0 == 43 || s0 == 45) = false) :
+    expTail (s0 :: t') = digitsTail (s0 :: t') := by
+  simp only [expTail, hs, Bool.false_eq_true, if_false]
+  rfl
+
+/-- a digit is required, then exponent digits -/
+theorem exp_first_digit_run {τ} (k : Kind) (c : Ctx) (hc : c ≠ .hTop) (data : Bytes) (h : Handler τ) (hsm : Small data)
+    (s : AS) (hnf : isFinal s = false)
+    (l : List UInt8) (hs : ∀ d t2, l = d :: t2 → (machine k).step s d = if isDigit d then ([], some ⟨c, .tok .exp⟩) else errTr k c)
+    (fuel p : Nat) (st : List AS) (r : Regs τ) (hat : At data p l) (hp : r.p = p) (hf : l.length + 1 ≤ fuel) :
+    match digitsTail l with
+    | some rest => Reach (machine k) data h fuel s st r rest ⟨c, .after⟩ st
+    | none => IsErr (contL (machine k) data h fuel s st r) := by
+  cases l with
+  | nil =>
+    simp only [digitsTail]
+    rw [contL_nil (machine k) data h _ _ _ r p hp hat]
+    exact eof_stops k _ data h r hnf
+  | cons d t2 =>
+    obtain ⟨hb, hlt, hat'⟩ := hat.cons_inv
+    obtain ⟨fuel, rfl⟩ : ∃ f, fuel = f + 1 := ⟨fuel - 1, by omega⟩
+    have hs' := hs d t2 rfl
+    simp only [digitsTail]
+    by_cases hd : isDigit d = true
+    · simp only [hd, if_true] at hs' ⊢
+      unfold Reach
+      rw [contL_cons (machine k) data h _ _ _ r p _ t2 hp hat,
+        loopL_goto (machine k) data h fuel _ _ st r p d t2 hsm hp hat hs']
+      exact exp_digits_run k c hc data h hsm t2 fuel (p + 1) st _ hat' rfl (by simp only [List.length_cons] at hf; omega)
+    · have hd' : isDigit d = false := by simpa using hd
+      simp only [hd', Bool.false_eq_true, if_false] at hs' ⊢
+      rw [contL_cons (machine k) data h _ _ _ r p _ t2 hp hat]
+      exact errTr_stops k c data h fuel _ st r d (by rw [hp]; exact hb) hs'
+
+/-- after `e`: optional sign, digits -/
+theorem expStart_run {τ} (k : Kind) (c : Ctx) (hc : c ≠ .hTop) (data : Bytes) (h : Handler τ) (hsm : Small data)
+    (l : List UInt8) (fuel p : Nat) (st : List AS) (r : Regs τ) (hat : At data p l) (hp : r.p = p) (hf : l.length + 1 ≤ fuel) :
+    match expTail l with
+    | some rest => Reach (machine k) data h fuel ⟨c, .tok .expStart⟩ st r rest ⟨c, .after⟩ st
+    | none => IsErr (contL (machine k) data h fuel ⟨c, .tok .expStart⟩ st r) := by
+  cases l with
+  | nil =>
+    rw [expTail_nil]
+    simp only []
+    rw [contL_nil (machine k) data h _ _ _ r p hp hat]
+    exact eof_stops k _ data h r (expStart_not_final c)
+  | cons s0 t' =>
+    obtain ⟨hb, hlt, hat'⟩ := hat.cons_inv
+    by_cases hs : (s0 == 43 || s0 == 45) = true
+    · obtain ⟨fuel, rfl⟩ : ∃ f, fuel = f + 1 := ⟨fuel - 1, by omega⟩
+      have hstep : (machine k).step ⟨c, .tok .expStart⟩ s0 = ([], some ⟨c, .tok .expSign⟩) := by
+        simp only [machine, step, hs, if_true]
+      have key := exp_first_digit_run k c hc data h hsm ⟨c, .tok .expSign⟩ (expSign_not_final c) t'
+        (by intro d t2 _; simp only [machine, step]) fuel (p + 1) st { r with p := ((p + 1 : Nat) : Int) } hat' rfl
+        (by simp only [List.length_cons] at hf; omega)
+      rw [expTail_sign s0 t' hs]
+      unfold Reach at key ⊢
+      rw [contL_cons (machine k) data h _ _ _ r p _ t' hp hat,
+        loopL_goto (machine k) data h fuel _ _ st r p s0 t' hsm hp hat hstep]
+      exact key
+    · have hs' : (s0 == 43 || s0 == 45) = false := by simpa using hs
+      rw [expTail_nosign s0 t' hs']
+      exact exp_first_digit_run k c hc data h hsm ⟨c, .tok .expStart⟩ (expStart_not_final c) (s0 :: t')
+        (by intro d t2 hh; injection hh with h1 _; subst h1; simp only [machine, step, hs', Bool.false_eq_true, if_false])
+        fuel p st r hat hp hf
+
+/-- fraction digits, optional exponent, then `after` -/
+theorem frac_digits_run {τ} (k : Kind) (c : Ctx) (hc : c ≠ .hTop) (data : Bytes) (h : Handler τ) (hsm : Small data) :
+    ∀ (l : List UInt8) (fuel p : Nat) (st : List AS) (r : Regs τ), At data p l → r.p = p → l.length + 1 ≤ fuel →
+      match scanExp (skipDigits l) with
+      | some rest => Reach (machine k) data h fuel ⟨c, .tok .frac⟩ st r rest ⟨c, .after⟩ st
+      | none => IsErr (contL (machine k) data h fuel ⟨c, .tok .frac⟩ st r) := by
+  intro l
+  induction l with
+  | nil =>
+    intro fuel p st r hat hp hf
+    have : scanExp (skipDigits []) = some [] := rfl
+    rw [this]
+    refine ⟨fuel, p, hat, hf, ?_⟩
+    rw [setp_self r _ hp]
+    exact contL_state_congr (machine k) data h fuel _ _ st r p [] hat hp (dfa_eof k c hc .frac (by simp)) (by intro b rest hh; cases hh)
+  | cons b rest ih =>
+    intro fuel p st r hat hp hf
+    obtain ⟨hb, hlt, hat'⟩ := hat.cons_inv
+    by_cases hd : isDigit b = true
+    · rw [skipDigits_cons_digit b rest hd]
+      obtain ⟨fuel, rfl⟩ : ∃ f, fuel = f + 1 := ⟨fuel - 1, by omega⟩
+      have hstep : (machine k).step ⟨c, .tok .frac⟩ b = ([], some ⟨c, .tok .frac⟩) := by simp [machine, step, hd]
+      unfold Reach
+      rw [contL_cons (machine k) data h _ _ _ r p _ rest hp hat,
+        loopL_goto (machine k) data h fuel _ _ st r p b rest hsm hp hat hstep]
+      exact ih fuel (p + 1) st { r with p := ((p + 1 : Nat) : Int) } hat' rfl (by simp only [List.length_cons] at hf; omega)
+    · have hd' : isDigit b = false := by simpa using hd
+      rw [skipDigits_cons_nondigit b rest hd']
+      by_cases he : (b == 101 || b == 69) = true
+      · rw [scanExp_e b rest he]
+        obtain ⟨fuel, rfl⟩ : ∃ f, fuel = f + 1 := ⟨fuel - 1, by omega⟩
+        have hstep : (machine k).step ⟨c, .tok .frac⟩ b = ([], some ⟨c, .tok .expStart⟩) := by
+          simp only [machine, step, hd', Bool.false_eq_true, if_false, he, if_true]
+        have key := expStart_run k c hc data h hsm rest fuel (p + 1) st { r with p := ((p + 1 : Nat) : Int) } hat' rfl
+          (by simp only [List.length_cons] at hf; omega)
+        unfold Reach at key ⊢
+        rw [contL_cons (machine k) data h _ _ _ r p _ rest hp hat,
+          loopL_goto (machine k) data h fuel _ _ st r p b rest hsm hp hat hstep]
+        exact key
+      · have he' : (b == 101 || b == 69) = false := by simpa using he
+        rw [scanExp_other b rest he']
+        refine ⟨fuel, p, hat, hf, ?_⟩
+        rw [setp_self r _ hp]
+        apply contL_state_congr (machine k) data h fuel _ _ st r p (b :: rest) hat hp (dfa_eof k c hc .frac (by simp))
+        intro b' rest' hh
+        injection hh with h1 _
+        subst h1
+        simp only [machine, step, hd', Bool.false_eq_true, if_false, he']
+
+/-- the number tail in the machines without helper scanners -/
+theorem num_tail_dfa {τ} (k : Kind) (c : Ctx) (hu : usesHelpers k c = false) (hc : c ≠ .hTop)
+    (t : Tok) (ht : t = .zero ∨ t = .int) (data : Bytes) (h : Handler τ) (hsm : Small data)
+    (l : List UInt8) (fuel p : Nat) (st : List AS) (r : Regs τ) (hat : At data p l) (hp : r.p = p)
+    (hf : l.length + 1 ≤ fuel) (hnd : t = .int → ∀ b rest, l = b :: rest → isDigit b = false) :
+    match scanFrac l with
+    | some rest => Reach (machine k) data h fuel ⟨c, .tok t⟩ st r rest ⟨c, .after⟩ st
+    | none => IsErr (contL (machine k) data h fuel ⟨c, .tok t⟩ st r) := by
+  have hstepgen : ∀ b, (machine k).step ⟨c, .tok t⟩ b =
+      if t == .int && isDigit b then ([], some ⟨c, .tok .int⟩)
+      else if b == 46 then ([], some ⟨c, .tok .fracStart⟩)
+      else if b == 101 || b == 69 then ([], some ⟨c, .tok .expStart⟩)
+      else afterTr k c b := by
+    intro b
+    rcases ht with rfl | rfl <;> simp only [machine, step, hu, Bool.false_eq_true, if_false]
+  have heof : (machine k).eof ⟨c, .tok t⟩ = (machine k).eof ⟨c, .after⟩ :=
+    dfa_eof k c hc t (by rcases ht with rfl | rfl <;> simp)
+  cases l with
+  | nil =>
+    rw [scanFrac_nil]
+    refine ⟨fuel, p, hat, hf, ?_⟩
+    rw [setp_self r _ hp]
+    exact contL_state_congr (machine k) data h fuel _ _ st r p [] hat hp heof (by intro b rest hh; cases hh)
+  | cons b rest =>
+    obtain ⟨hb, hlt, hat'⟩ := hat.cons_inv
+    obtain ⟨fuel, rfl⟩ : ∃ f, fuel = f + 1 := ⟨fuel - 1, by omega⟩
+    have hf' : rest.length + 1 ≤ fuel := by simp only [List.length_cons] at hf; omega
+    have hnotd : (t == .int && isDigit b) = false := by
+      rcases ht with rfl | rfl
+      · rfl
+      · simp [hnd rfl b rest rfl]
+    by_cases h46 : b = 46
+    · subst h46
+      rw [scanFrac_dot]
+      have hstep : (machine k).step ⟨c, .tok t⟩ 46 = ([], some ⟨c, .tok .fracStart⟩) := by
+        rw [hstepgen]; simp [not_digit_46]
+      unfold Reach
+      rw [contL_cons (machine k) data h _ _ _ r p _ rest hp hat,
+        loopL_goto (machine k) data h fuel _ _ st r p 46 rest hsm hp hat hstep]
+      -- fracStart: a digit is required
+      cases rest with
+      | nil =>
+        simp only [fracTail]
+        rw [contL_nil (machine k) data h _ _ _ _ (p + 1) rfl hat']
+        exact eof_stops k _ data h _ (fracStart_not_final c)
+      | cons d t' =>
+        obtain ⟨hb2, _, hat''⟩ := hat'.cons_inv
+        obtain ⟨fuel, rfl⟩ : ∃ f, fuel = f + 1 := ⟨fuel - 1, by simp only [List.length_cons] at hf'; omega⟩
+        simp only [fracTail]
+        rw [contL_cons (machine k) data h _ _ _ _ (p + 1) d t' rfl hat']
+        by_cases hd : isDigit d = true
+        · simp only [hd, if_true]
+          have hstep2 : (machine k).step ⟨c, .tok .fracStart⟩ d = ([], some ⟨c, .tok .frac⟩) := by simp [machine, step, hd]
+          rw [loopL_goto (machine k) data h fuel _ _ st _ (p + 1) d t' hsm rfl hat' hstep2]
+          exact frac_digits_run k c hc data h hsm t' fuel (p + 1 + 1) st _ hat'' rfl (by simp only [List.length_cons] at hf'; omega)
+        · have hd' : isDigit d = false := by simpa using hd
+          simp only [hd', Bool.false_eq_true, if_false]
+          have hstep2 : (machine k).step ⟨c, .tok .fracStart⟩ d = errTr k c := by simp [machine, step, hd']
+          exact errTr_stops k c data h fuel _ st _ d hb2 hstep2
+    · rw [scanFrac_other b rest h46]
+      have h46' : (b == 46) = false := by simpa using h46
+      by_cases he : (b == 101 || b == 69) = true
+      · rw [scanExp_e b rest he]
+        have hstep : (machine k).step ⟨c, .tok t⟩ b = ([], some ⟨c, .tok .expStart⟩) := by
+          rw [hstepgen]; simp only [hnotd, h46', he, Bool.false_eq_true, if_false, if_true]
+        have key := expStart_run k c hc data h hsm rest fuel (p + 1) st { r with p := ((p + 1 : Nat) : Int) } hat' rfl hf'
+        unfold Reach at key ⊢
+        rw [contL_cons (machine k) data h _ _ _ r p _ rest hp hat,
+          loopL_goto (machine k) data h fuel _ _ st r p b rest hsm hp hat hstep]
+        exact key
+      · have he' : (b == 101 || b == 69) = false := by simpa using he
+        rw [scanExp_other b rest he']
+        refine ⟨fuel + 1, p, hat, hf, ?_⟩
+        rw [setp_self r _ hp]
+        apply contL_state_congr (machine k) data h (fuel + 1) _ _ st r p (b :: rest) hat hp heof
+        intro b' rest' hh
+        injection hh with hh1 _
+        subst hh1
+        rw [hstepgen]
+        simp only [hnotd, h46', he', Bool.false_eq_true, if_false]
+        simp only [machine, step]
+
+/-- the digit loop of the integer part, then the tail (machines without helper scanners) -/
+theorem int_run_dfa {τ} (k : Kind) (c : Ctx) (hu : usesHelpers k c = false) (hc : c ≠ .hTop)
+    (data : Bytes) (h : Handler τ) (hsm : Small data) :
+    ∀ (l : List UInt8) (fuel p : Nat) (st : List AS) (r : Regs τ), At data p l → r.p = p → l.length + 1 ≤ fuel →
+    match scanFrac (skipDigits l) with
+    | some rest => Reach (machine k) data h fuel ⟨c, .tok .int⟩ st r rest ⟨c, .after⟩ st
+    | none => IsErr (contL (machine k) data h fuel ⟨c, .tok .int⟩ st r) := by
+  intro l
+  induction l with
+  | nil =>
+    intro fuel p st r hat hp hf
+    exact num_tail_dfa k c hu hc .int (.inr rfl) data h hsm [] fuel p st r hat hp hf (by intro _ b rest hh; cases hh)
+  | cons b rest ih =>
+    intro fuel p st r hat hp hf
+    by_cases hd : isDigit b = true
+    · rw [skipDigits_cons_digit b rest hd]
+      obtain ⟨hb, hlt, hat'⟩ := hat.cons_inv
+      obtain ⟨fuel, rfl⟩ : ∃ f, fuel = f + 1 := ⟨fuel - 1, by omega⟩
+      have hstep : (machine k).step ⟨c, .tok .int⟩ b = ([], some ⟨c, .tok .int⟩) := by
+        simp [machine, step, hd]
+      unfold Reach
+      rw [contL_cons (machine k) data h _ _ _ r p _ rest hp hat,
+        loopL_goto (machine k) data h fuel _ _ st r p b rest hsm hp hat hstep]
+      exact ih fuel (p + 1) st { r with p := ((p + 1 : Nat) : Int) } hat' rfl (by simp only [List.length_cons] at hf; omega)
+    · have hd' : isDigit b = false := by simpa using hd
+      rw [skipDigits_cons_nondigit b rest hd']
+      exact num_tail_dfa k c hu hc .int (.inr rfl) data h hsm (b :: rest) fuel p st r hat hp hf
+        (by intro _ b' rest' hh; injection hh with h1 _; subst h1; exact hd')
+
 end RJson.Abs
